@@ -90,11 +90,11 @@ type decOutcome struct {
 // guardedDecode runs DecodeSlab and, when it succeeds, ByteSize and ChildStorables, under recover
 // with a 2 s watchdog.
 func guardedDecode(id atree.SlabID, data []byte) decOutcome {
-	o := guardedDecodeT(id, data, 2*time.Second)
+	o := guardedDecodeT(id, data, 5*time.Second)
 	if o.class == "TIMEOUT" {
 		// a loaded machine can starve the goroutine for seconds: only a call that does not return
 		// within a minute either is reported as a hang
-		o = guardedDecodeT(id, data, 60*time.Second)
+		o = guardedDecodeT(id, data, 120*time.Second)
 	}
 	return o
 }
@@ -166,7 +166,7 @@ func guardedHeader(data []byte) hdrOutcome {
 	select {
 	case o := <-ch:
 		return o
-	case <-time.After(2 * time.Second):
+	case <-time.After(60 * time.Second):
 		return hdrOutcome{class: "TIMEOUT"}
 	}
 }
@@ -207,7 +207,7 @@ func guardedCBOR(data []byte) (class string, n int, detail string) {
 	select {
 	case o := <-ch:
 		return o.class, o.n, o.detail
-	case <-time.After(2 * time.Second):
+	case <-time.After(60 * time.Second):
 		return "TIMEOUT", 0, ""
 	}
 }
